@@ -78,6 +78,8 @@ pub struct Tape {
   pos: [usize; 5],
   /// What was actually drawn (both modes) - this is the normalised tape.
   pub rec: Tapes,
+  /// number of alternatives of every `schedule` draw (for enumeration)
+  pub schedule_arity: Vec<u32>,
   /// Mixed mode: streams in `fresh_mask` come from the PRNG, the rest from
   /// `src`.
   mixed: bool,
@@ -98,6 +100,7 @@ impl Tape {
       src: Default::default(),
       pos: [0; 5],
       rec: Default::default(),
+      schedule_arity: Vec::new(),
       mixed: false,
       fresh_mask: 0,
     }
@@ -109,6 +112,7 @@ impl Tape {
       src,
       pos: [0; 5],
       rec: Default::default(),
+      schedule_arity: Vec::new(),
       mixed: false,
       fresh_mask: 0,
     }
@@ -153,6 +157,9 @@ impl Tape {
       }
     };
     self.rec.get_mut(s).push(v);
+    if s == Stream::Schedule {
+      self.schedule_arity.push(n);
+    }
     v
   }
 
